@@ -174,8 +174,11 @@ def make_membrane(mixture, p1, p2, t_ref, ea1=None, ea2=None, extra_temps=(), un
 PROGRAMMES = {
     "none": None,
     "poly": ("polynomial", [333.15, -1.5, 0.05]),
-    "exp": ("exponential", [333.15, 0.0, -0.004]),  # T = c0*exp(c1 + c2*t)
+    "exp": ("exponential", [310.0, 0.072, -0.004]),  # T = c0*exp(c1 + c2*t); every coefficient non-zero (generic)
+    "exp3": ("exponential", [352.0, -0.055, 0.006, -0.0002]),  # T = c0*exp(c1 + c2*t + c3*t^2)
+    "poly3": ("polynomial", [318.15, 2.2, -0.11, 0.0013]),
     "log": ("logarithmic", [140.0, 10.8, 0.12]),  # T = c0*ln(c1 + c2*t)
+    "log3": ("logarithmic", [150.0, 8.9, 0.21, -0.003]),
     "poly_cross0": ("polynomial", [300.0, -400.0]),  # crosses 0 K within the first step(s)
 }
 
